@@ -284,9 +284,17 @@ func (w *World) FieldAccesses() []*FieldAccess {
 				if !rootStruct(x.X.Type()) {
 					return
 				}
-				fr := FieldRef{typeNameOf(x.X.Type()), fieldName(x.X.Type(), x.Field)}
+				fr := mkFieldRef(x.X.Type(), x.Field)
 				ft := structOf(x.X.Type()).Field(x.Field).Type()
+				if _, uniq := uniqueEmbedding[typeNameOf(ft)]; uniq {
+					return // a uniquely embedded sub-struct: its fields are recorded as the outer struct's
+				}
 				constr := freshAlloc(x.X)
+				if outer, isOuter := x.X.(*ssa.FieldAddr); isOuter {
+					if _, uniq := uniqueEmbedding[typeNameOf(x.X.Type())]; uniq {
+						constr = freshAlloc(outer.X)
+					}
+				}
 				for _, r := range *x.Referrers() {
 					fa := &FieldAccess{Field: fr, Instr: r, Fn: fn, Base: x.X, Constr: constr}
 					switch y := r.(type) {
@@ -335,7 +343,7 @@ func (w *World) FieldAccesses() []*FieldAccess {
 				if !rootStruct(x.X.Type()) {
 					return
 				}
-				fr := FieldRef{typeNameOf(x.X.Type()), fieldName(x.X.Type(), x.Field)}
+				fr := mkFieldRef(x.X.Type(), x.Field)
 				out = append(out, &FieldAccess{Field: fr, Kind: "load", Instr: x, Fn: fn, Base: x.X})
 			}
 		})
